@@ -87,11 +87,14 @@ def validRoundChangeForData (cfg : Cfg) (stateHeight : Nat) (rc : Lvl1) (height 
   rejectIf (rc.type != tRoundChange) .notRoundChange
   rejectIf (rc.height != height) .wrongHeight
   rejectIf (rc.round != round) .wrongRound
+  rejectIf (rc.ident != cfg.ident) .wrongMsgIdentifier
   rejectIf (rc.signers.length != 1) .oneSigner
   rejectIf (!cfg.verifySig rc.toBase) .sigInvalid
   wrap .roundChangeInvalid (messageValidate rc.toBase)
   if rc.toBase.rcPrepared then
-    wrap .rcJustInvalid (firstFail (fun pm => validSignedPrepare cfg pm stateHeight rc.dataRound rc.root) rc.just)
+    wrap .rcJustInvalid (firstFail (fun pm => do
+      rejectIf (pm.ident != cfg.ident) .wrongMsgIdentifier
+      validSignedPrepare cfg pm stateHeight rc.dataRound rc.root) rc.just)
     rejectIf (hashData fullData != rc.root) .hashMismatch
     rejectIf (!cfg.hasQuorum (signersOfB rc.just)) .noJustQuorum
     rejectIf (decide (rc.dataRound > round)) .preparedGtRound
@@ -125,7 +128,9 @@ def isProposalJustification (cfg : Cfg) (stateHeight : Nat) (rcs : List Lvl1) (p
       | none => fail .noHighestPrepared
       | some rcm =>
         rejectIf (hashData fullData != rcm.root) .notHighestPrepared
-        match firstFail (fun pm => validSignedPrepare cfg pm height rcm.dataRound rcm.root) prepares with
+        match firstFail (fun pm => do
+            rejectIf (pm.ident != cfg.ident) .wrongMsgIdentifier
+            validSignedPrepare cfg pm height rcm.dataRound rcm.root) prepares with
         | .ok _ => pure ()
         | .error .panic => .error .panic
         | .error (.tag _) => fail .prepareNotValid
